@@ -1,6 +1,7 @@
 import LexVerif.Proof.SlowCompose
 import LexVerif.Model.SlowBytes
 import LexVerif.Proof.LitBits
+import LexVerif.Proof.SlowLimbs
 /-!
 # C01 / C05 — the big-integer slow path (`slow.rs`, `bigint.rs`) is correctly rounded (property theorems)
 
@@ -540,5 +541,24 @@ theorem byte_comp_lowercase_regression :
     slowRadix envRadix FTy.f64 true 11 ⟨9007199254740993, 0, bytesOf "2179A75830112629", none⟩
       ⟨9223372036854776832, 1065⟩ = some ⟨0, 1076⟩ ∧
     extendedToFloat FTy.f64 ⟨0, 1076⟩ = roundNE f64 (2 ^ 53 + 1) 1 := by decide +kernel
+
+/-! ## the value-level big integers refine the limb-level ones -/
+
+/-- `small_mul` on a normalised limb vector (64-bit limbs, non-zero top limb): the value-level operation of
+`Model.Slow` and the limb-level one of `Model.SlowBytes` return the same value and fail on the same inputs
+(`try_push` beyond `SIZE` ⇔ the product needs more than `SIZE` limbs) -/
+theorem small_mul_refines {cap : Nat} {x : Limbs} (h : Normalized x) (hlen : x.length ≤ cap) {y : Nat} (hy0 : y ≠ 0)
+    (hy : y < 2 ^ 64) : (smallMulL cap x y).map valL = smallMul cap (valL x) y :=
+  smallMul_refines h hlen hy0 hy
+
+/-- `shl_limbs` likewise (`n + len > SIZE` ⇔ `n + limbsOf value > SIZE`) -/
+theorem shl_limbs_refines {cap : Nat} {x : Limbs} (h : Normalized x) (n : Nat) :
+    (shlLimbsL cap x n).map valL = shlLimbs cap (valL x) n := shlLimbs_refines h n
+
+example : Normalized [5, 0, 7] ∧ (smallMulL 3 [5, 0, 7] (2 ^ 63)).map valL = none ∧
+    (smallMulL 4 [5, 0, 7] (2 ^ 63)).map valL = some (valL [5, 0, 7] * 2 ^ 63) := by
+  refine ⟨⟨?_, ?_⟩, by decide +kernel, by decide +kernel⟩
+  · intro l hl; simp at hl; rcases hl with h | h | h <;> subst h <;> decide
+  · intro l hl; simp at hl; subst hl; decide
 
 end LexVerif.Props.C01Slow
